@@ -211,3 +211,126 @@ func H_C18_formatArgsOrder(n int) {
 		}
 	}
 }
+
+// ---- the whole job script: template substitution around formatArgs ----
+
+const c18Template = "#!/bin/sh\n" +
+	"#$ -N __MRO_JOB_NAME__\n" +
+	"#$ -pe threads __MRO_THREADS__\n" +
+	"#$ -l mem_free=__MRO_MEM_GB__G\n" +
+	"#$ -A __MRO_ACCOUNT__\n" +
+	"#$ __MRO_RESOURCES__\n" +
+	"#$ -o __MRO_STDOUT__\n" +
+	"#$ -e __MRO_STDERR__\n" +
+	"cd __MRO_JOB_WORKDIR__\n" +
+	"__MRO_CMD__\n"
+
+// the vocabulary of the template language itself: values and paths built from
+// these must come through verbatim too
+var c18Vocabulary = []string{
+	"__MRO_MEM_GB__", "__MRO_ACCOUNT__", "__MRO_RESOURCES__", "__MRO_CMD__", "__MRO_THREADS__",
+	"__MRO_STDOUT__", "__MRO_VMEM_GB__", "__MRO_JOB_NAME__", "__RESOURCES__",
+}
+
+func c18Lines(s string) [][]byte {
+	var lines [][]byte
+	start := 0
+	b := []byte(s)
+	for i := range b {
+		if b[i] == '\n' {
+			lines = append(lines, b[start:i])
+			start = i + 1
+		}
+	}
+	return append(lines, b[start:])
+}
+
+// H_C18_jobScript(word, where, n): an argument (where = 0), an environment
+// value (1) or the pipestance path (2) is n arbitrary bytes followed by one of
+// the template language's own parameter names.
+//
+//	C18: the job script is the template with every annotation replaced by its
+//	     value once — values are never re-scanned — so the command line
+//	     de-quotes to exactly the arguments and environment given, the
+//	     stdout / stderr / workdir paths to exactly the metadata paths, and
+//	     lines whose parameter has no value are dropped.
+func H_C18_jobScript(word, where, n int) {
+	pre := verifString("prefix", n)
+	verifAssume(!hasNul(pre))
+	verifAssume(!hasByte(pre, '\n')) // (paths and the line-based oracle below)
+	val := pre + c18Vocabulary[word]
+	arg, env, dir := "plain", "v", "/ps/P/S/fork0"
+	switch where {
+	case 0:
+		arg = val
+	case 1:
+		env = val
+	default:
+		dir = "/ps/" + val
+	}
+	mgr := &RemoteJobManager{jobMode: "sge", jobResourcesMappings: map[string]string{}, memGBPerCore: 0}
+	mgr.config = jobManagerConfig{
+		jobSettings:      &JobManagerSettings{ThreadsPerJob: 1, MemGBPerJob: 4, ExtraVmemGB: 3},
+		jobResourcesOpt:  "-l __RESOURCES__",
+		jobTemplate:      c18Template,
+		threadingEnabled: true,
+	}
+	md := NewMetadata("ID.ps.P.S.fork0", dir)
+	md.curFilesPath = dir + "/files"
+	script := mgr.jobScript("/m/mrjob", []string{arg}, map[string]string{"K": env}, md,
+		&JobResources{Threads: 2, MemGB: 4}, "ID.ps.P.S.fork0", "main")
+	verifCover("script generated")
+	// (a line whose parameter is empty is blanked: its newline stays)
+	var lines [][]byte
+	for _, l := range c18Lines(script) {
+		if len(l) > 0 {
+			lines = append(lines, l)
+		}
+	}
+	// MRO_ACCOUNT is unset in the engine and natively by default; no special resource requested
+	want := []string{"#!/bin/sh", "#$ -N ID.ps.P.S.fork0.main", "#$ -pe threads 2", "#$ -l mem_free=4G"}
+	for i, wl := range want {
+		verifAssert(i < len(lines) && string(lines[i]) == wl, "C18: header annotations are replaced by their values; lines whose parameter is empty are dropped")
+	}
+	if len(lines) < 8 {
+		verifAssert(false, "C18: the script keeps the lines of the template")
+		return
+	}
+	rest := lines[4:]
+	check := func(line []byte, prefix string, wantWord string, label string) {
+		if len(line) < len(prefix) || string(line[:len(prefix)]) != prefix {
+			verifAssert(false, label)
+			return
+		}
+		words, ok := shWords(line[len(prefix):])
+		verifAssert(ok && len(words) == 1 && string(words[0]) == c18Want(wantWord), label)
+	}
+	check(rest[0], "#$ -o ", md.MetadataFilePath("stdout"), "C18: the stdout path arrives verbatim")
+	check(rest[1], "#$ -e ", md.MetadataFilePath("stderr"), "C18: the stderr path arrives verbatim")
+	check(rest[2], "cd ", md.curFilesPath, "C18: the working directory arrives verbatim")
+	// the command: environment assignments, the command, the argument (joined by backslash-newline)
+	var cmd []byte
+	for i, l := range rest[3:] {
+		if i > 0 {
+			cmd = append(cmd, '\n')
+		}
+		cmd = append(cmd, l...)
+	}
+	words, ok := shWords(cmd)
+	verifAssert(ok, "C18: the command line splits into shell words without live metacharacters")
+	if ok {
+		n := len(words)
+		verifAssert(n >= 3, "C18: environment, command and argument are all present")
+		if n >= 3 {
+			verifAssert(string(words[n-1]) == c18Want(arg), "C18: the argument arrives verbatim, even if it spells a template parameter")
+			verifAssert(string(words[n-2]) == "/m/mrjob", "C18: the command arrives verbatim")
+			found := false
+			for _, w := range words[:n-2] {
+				if string(w) == "K="+c18Want(env) {
+					found = true
+				}
+			}
+			verifAssert(found, "C18: the environment value arrives verbatim, even if it spells a template parameter")
+		}
+	}
+}
